@@ -262,6 +262,10 @@ STRESS_VALUES = [
     # references to the (anonymous) object itself and odd object lists
     "[this]", "[menuAction()]", "[this.menuAction()]", "menuAction()", "this.menuAction()", "[mn, act]", "[act, act]",
     "[null]", "[act, null]", "[mn.menuAction(), mn.menuAction()]", "[act.menu]", "mn",
+    # constant folding at the edges of 64 bits
+    "(-9223372036854775807 - 1) / -1", "(-9223372036854775807 - 1) % -1", "-(-9223372036854775807 - 1)", "(-9223372036854775807 - 1) * -1",
+    "9223372036854775807 + 1", "~(-9223372036854775807 - 1)", "(-9223372036854775807 - 1) >> 63", "1 << 63", "-1 >>> 1", "1 >>> 70",
+    "0 / 0", "0.0 / 0.0", "1e308 * 10.0", "5 % 0", "5.5 % 0.0", "(-9223372036854775807 - 1) - 1",
 ]
 
 
